@@ -63,7 +63,7 @@ static void runHistory(Dec d /* by value: both cache configurations replay the s
         pool.push_back(l); trace += "parse(" + kind + (s.hasRfc ? ",rfc" : "") + ") "; c.cls(kind == "consistent" ? "pool:consistent" : "pool:inconsistent"); if (s.hasRfc) c.cls("pool:legacy"); };
     addParsed();
     for (unsigned step = 0; step < nops && !c.fail; step++) {
-        if (pool.empty()) { addParsed(); continue; } unsigned op = d.pick(15); if (op == 14) op = 13; size_t i = d.pick((uint32_t)pool.size()); std::string what;
+        if (pool.empty()) { addParsed(); continue; } unsigned op = d.pick(15); size_t i = d.pick((uint32_t)pool.size()); std::string what;
         switch (op) {
         case 0: if (pool.size() < 4) { addParsed(); what = "parse"; } break;
         case 1: { KSI_Signature *cl = nullptr; int res = KSI_Signature_clone(pool[i].sig, &cl); what = "clone " + num((long long)i); if (res != KSI_OK) { VF_FAIL(c, "C11:clone-failed", "clone failed res=" + num(res)); break; } Bytes cb = serializeSig(cl); if (cb != pool[i].birth) VF_FAIL(c, "C11:clone-serializes-differently", "clone of signature " + num((long long)i) + " serializes differently | " + trace);
@@ -76,6 +76,7 @@ static void runHistory(Dec d /* by value: both cache configurations replay the s
             break; }
         case 11: { // verifyWithPolicy through the shared, caller-owned verification context
             VArgs a; a.policy = d.pick(4) == 0 ? (int)d.pick(7) : 0; a.hashMode = (int)d.pick(3); static const uint64_t lv[] = {0, 0, 0, 1, 3, 200, 255}; a.level = lv[d.pick(7)]; a.extending = true; KSI_DataHash *dh = nullptr; if (a.hashMode) { Bytes h = pool[i].doc; if (a.hashMode == 2) h[h.size() - 1] ^= 1; KSI_DataHash_fromImprint(ctx, h.data(), h.size(), &dh); }
+            if (pool.size() > 1 && step % 2) { sharedVc.signature = pool[(i + 1) % pool.size()].sig; c.cls("shared-verification-context:signature-member-left-over"); } else sharedVc.signature = nullptr; // the member may still name the signature of an earlier use; the signature passed to the call is the one that counts
             KSI_VerificationContext before = sharedVc; int got = KSI_Signature_verifyWithPolicy(pool[i].sig, dh, a.level, policyNo(a.policy), &sharedVc); what = "verifyWithPolicy(shared-context) " + num((long long)i) + " p" + num(a.policy) + " h" + num(a.hashMode) + " l" + std::to_string(a.level) + "=" + num(got); trace += what + " "; verifies++; verdictKinds.insert(num(got)); c.cls("shared-verification-context");
             if (memcmp(&before, &sharedVc, sizeof before) != 0) VF_FAIL(c, "C11:caller-context-modified", "KSI_Signature_verifyWithPolicy changed the caller's verification context object | history: " + trace);
             else { Ctx c2; setupCtx(c2); HeapBuf in2(pool[i].birth); KSI_Signature *s2 = nullptr; int want = KSI_UNKNOWN_ERROR; if (KSI_Signature_parseWithPolicy(c2, in2.p, in2.n, KSI_VERIFICATION_POLICY_EMPTY, nullptr, &s2) == KSI_OK) { KSI_VerificationContext v2; KSI_VerificationContext_init(&v2, c2); v2.extendingAllowed = 1; KSI_DataHash *d2 = nullptr; if (a.hashMode) { Bytes h = pool[i].doc; if (a.hashMode == 2) h[h.size() - 1] ^= 1; KSI_DataHash_fromImprint(c2, h.data(), h.size(), &d2); }
@@ -101,6 +102,14 @@ static void runHistory(Dec d /* by value: both cache configurations replay the s
             KSI_LIST(KSI_HashChainLink) *ll = nullptr; KSI_HashChainLinkList_new(&ll); KSI_HashChainLink *lk = nullptr; KSI_HashChainLink_new(ctx, &lk); KSI_HashChainLink_setIsLeft(lk, 1); Bytes sib(33, 0x42); sib[0] = 1; KSI_DataHash *sh = nullptr; KSI_DataHash_fromImprint(ctx, sib.data(), sib.size(), &sh); KSI_HashChainLink_setImprint(lk, sh); KSI_HashChainLinkList_append(ll, lk); KSI_AggregationHashChain_setChain(lc, ll);
             KSI_SignatureBuilder *b = nullptr; KSI_Signature *out = nullptr; int res = KSI_SignatureBuilder_openFromSignature(pool[i].sig, &b); if (res == KSI_OK) res = KSI_SignatureBuilder_createSignatureWithAggregationChain(b, lc, &out); what = "prepend-chain " + num((long long)i) + "=" + num(res); trace += what + " "; derives++; if (res == KSI_OK) c.cls("derive:prepended");
             KSI_Signature_free(out); KSI_SignatureBuilder_free(b); KSI_AggregationHashChain_free(lc); break; }
+        case 14: { // a local chain prepended IN PLACE through the deprecated KSI_Signature_appendAggregationChain: the object is changed on purpose (its new serialization becomes the reference);
+            // what it verifies to afterwards must again equal the verdict of its bytes in a fresh context - results memoised by earlier verifications of the object must not survive the change
+            KSI_AggregationHashChain *lc = nullptr; KSI_AggregationHashChain_new(ctx, &lc); KSI_Integer *alg = nullptr; KSI_Integer_new(ctx, 1, &alg); KSI_AggregationHashChain_setAggrHashId(lc, alg); Bytes leaf(33, 0x21); leaf[0] = 1; KSI_DataHash *lh = nullptr; KSI_DataHash_fromImprint(ctx, leaf.data(), leaf.size(), &lh); KSI_AggregationHashChain_setInputHash(lc, lh);
+            KSI_LIST(KSI_HashChainLink) *ll = nullptr; KSI_HashChainLinkList_new(&ll); KSI_HashChainLink *lk = nullptr; KSI_HashChainLink_new(ctx, &lk); KSI_HashChainLink_setIsLeft(lk, 1); Bytes sib(33, 0x42); sib[0] = 1; KSI_DataHash *sh = nullptr; KSI_DataHash_fromImprint(ctx, sib.data(), sib.size(), &sh); KSI_HashChainLink_setImprint(lk, sh); KSI_HashChainLinkList_append(ll, lk); KSI_AggregationHashChain_setChain(lc, ll);
+            int res = KSI_Signature_appendAggregationChain(pool[i].sig, lc); what = "prepend-in-place " + num((long long)i) + "=" + num(res); trace += what + " "; KSI_AggregationHashChain_free(lc);
+            if (res == KSI_OK) { Bytes nb = serializeSig(pool[i].sig); HeapBuf chk(nb); KSI_Signature *again = nullptr; Ctx c3; bool parses = KSI_Signature_parseWithPolicy(c3, chk.p, chk.n, KSI_VERIFICATION_POLICY_EMPTY, nullptr, &again) == KSI_OK; KSI_Signature_free(again);
+                if (parses) { pool[i].birth = nb; pool[i].doc = leaf; pool[i].origin = "prepended in place: " + pool[i].origin; c.cls("modified-in-place:chain-prepended"); } else { KSI_Signature_free(pool[i].sig); pool.erase(pool.begin() + (long)i); what += "(dropped: result does not parse)"; } }
+            else { Bytes nb = serializeSig(pool[i].sig); pool[i].birth = nb; } break; }
         default: { unsigned m = d.pick(3); if (m == 0) { // the logger may also fail (always, or once its budget of lines is used up): the callback contract allows any status, and a verdict must not depend on it
                 static struct LogState { int mode; long left; } ls; ls.mode = (int)d.pick(3); ls.left = 1 + d.pick(40); int lvl = d.flag() ? KSI_LOG_DEBUG : (d.flag() ? KSI_LOG_NONE : (int)(KSI_LOG_ERROR + d.pick(4)));
                 KSI_CTX_setLogLevel(ctx, lvl); KSI_CTX_setLoggerCallback(ctx, [](void *u, int, const char *) { LogState *s = (LogState *)u; if (s->mode == 1) return (int)KSI_IO_ERROR; if (s->mode == 2 && s->left-- <= 0) return (int)KSI_BUFFER_OVERFLOW; return (int)KSI_OK; }, &ls);
